@@ -79,16 +79,18 @@ def r2(ctx, cfg):
     f = ctx.need_fn(R, KEY)
     if f is None:
         return
+    # the Reply values are read where they are used - at the `reply` call sites - so that it does not matter whether the
+    # envelope is written out twice or built by a local constructor closure (`let make_reply = |result| Reply { id, .., result }`)
     aggs = []
-    for bid, i, st in f.stmts():
-        rv = st.get("rv", {})
-        if st["k"] == "assign" and rv.get("k") == "aggregate" and rv.get("adt") == "cosmwasm_std::Reply":
-            aggs.append((bid, i, st))
-    ctx.ob(R, KEY, "two-Reply-aggregates", len(aggs) == 2, "expected two Reply{..} aggregates (success and error side), found %d" % len(aggs),
+    for bid, t in q.calls(f, submsg.REPLY):
+        args = P.call_args(f, t, bid)
+        rep = peel(args[6]) if len(args) > 6 else ("unknown", "")
+        if rep[0] == "agg" and rep[1].startswith("cosmwasm_std::Reply"):
+            aggs.append((bid, rep, {"line": t["line"]}))
+    ctx.ob(R, KEY, "two-Reply-aggregates", len(aggs) == 2, "expected two Reply{..} values handed to reply (success and error side), found %d" % len(aggs),
            fn=f, sample="2")
     sides = set()
-    for bid, i, st in aggs:
-        o = P.rvalue(f, st["rv"], (bid, i))
+    for bid, o, st in aggs:
         fields = dict(o[2])
         ctx.ob(R, KEY, "Reply.id@%d" % len(sides), _submsg_field(fields.get("id", ("unknown", "")), "id"),
                "Reply.id is %s, expected the sub-message's id" % fmt(fields.get("id", ("unknown", ""))), fn=f, line=st["line"],
